@@ -1,6 +1,4 @@
-(* STANDALONE (nothing requires this file; its Qed of cost_format_src takes ~6 min - to be made faster): a copy of
-   Proofs/SrcRenderCost.v plus cost_format_src.
-   Tie by translation (C16, bld-render4): CostRenderer of beanquery/query_render.py (Gen/SrcRender.v render_cost_...).
+(* Tie by translation (C16, bld-render4): CostRenderer of beanquery/query_render.py (Gen/SrcRender.v render_cost_...).
    Interpreting the translated __init__ / update / prepare / format on the encoded values of Model/PrimsRenderCost.v yields
    Render.v's c_init / c_update / c_width / c_format; and the model's formatted cell never exceeds the prepared width
    (cost_fits). *)
@@ -115,12 +113,15 @@ Proof.
     with (method_call PP "update" (fresh st) [enc_amt (n, c)]).
   apply (upd_call call_ref quant numfmt kq Hq).
 Qed.
+(* prims_cost leaves "method:prepare" to prims_pos (stated by itself: letting the kernel find this by conversion inside
+   method_call makes it unfold the interpreter on both sides) *)
+Lemma pc_method_prepare args : PC "method:prepare" args = PP "method:prepare" args.
+Proof. unfold prims_cost. cbn [String.eqb Ascii.eqb Bool.eqb]. reflexivity. Qed.
 Lemma prep_call_c st : no_default (c_a st) ->
   method_call PC "prepare" (fresh (c_a st)) [] = Ok (amt_obj (aready (c_a st)), PInt (Z.of_nat (a_width numfmt (c_a st)))).
 Proof.
-  intros H.
-  change (method_call PC "prepare" (fresh (c_a st)) []) with (method_call PP "prepare" (fresh (c_a st)) []).
-  apply (prep_call call_ref numfmt kq _ H).
+  intros H. rewrite <- (prep_call call_ref numfmt kq _ H).
+  unfold method_call, fresh_amt, amt_obj. cbn [String.append]. rewrite pc_method_prepare. reflexivity.
 Qed.
 Lemma fmt_prim_c st n c d l :
   PC "call:format" [amt_obj (aready st); PTuple [PInt 46; PV (VDec n); PV (VStr c); d; l]] = Ok (PV (VStr (a_format numfmt st (n, c)))).
@@ -163,7 +164,7 @@ Qed.
 
 Local Arguments prims_cost : simpl never.
 
-Ltac crw := rewrite ?pc_attr_date, ?pc_attr_label, ?pc_max, ?pc_plain, ?pc_fstr1, ?pc_fstr3, ?upd_call_c, ?fmt_prim_c, ?pc_spec, ?mc_append, ?pc_join1, ?pc_join2, ?pc_join3.
+Ltac crw := rewrite ?pc_attr_date, ?pc_attr_label, ?pc_max, ?pc_plain, ?pc_fstr1, ?pc_fstr3, ?upd_call_c, ?fmt_prim_c.
 
 Theorem cost_update_src : forall (mw prep : pv) (st : cstate) (v : cost),
   call_method call_ref PC render_cost_update (cost_env mw prep st) [enc_cost v] =
@@ -195,6 +196,8 @@ Proof.
   unfold cost_ready, c_width. rewrite !Nat2Z.inj_add. reflexivity.
 Qed.
 
+Ltac crwf := rewrite ?pc_attr_date, ?pc_attr_label, ?pc_max, ?pc_plain, ?pc_fstr1, ?pc_fstr3, ?upd_call_c, ?fmt_prim_c, ?pc_spec, ?mc_append, ?pc_join1, ?pc_join2, ?pc_join3.
+
 Theorem cost_format_src : forall (st : cstate) (v : cost),
   call_method call_ref PC render_cost_format (cost_ready st) [enc_cost v] =
   Ok (cost_ready st, PV (VStr (c_format numfmt st v))).
@@ -203,6 +206,6 @@ Proof.
   cbn [c_amt c_date c_label bind_params f_params f_body f_gen].
   unfold enc_cost. cbn [c_amt c_date c_label fst snd].
   destruct dt as [[[y m] d]|], lb as [l|]; cbn [enc_odate enc_ostr];
-    repeat (progress (cbn -[c_width join]; crw)); reflexivity.
+    repeat (progress (cbn -[c_width join]; crwf)); reflexivity.
 Qed.
 End Cost.
